@@ -16,7 +16,7 @@ def check_handover_lock(ctx: Ctx, locks: LockSets, oid: str) -> None:
     repo = ctx.repo
     with ctx.obligation(oid, "handover-lock") as ob:
         n = 0
-        for fi in repo.funcs.values():
+        for fi in repo.scan_funcs():
             if fi.name == "__init__":
                 continue
             for x in repo.own_nodes(fi):
@@ -54,7 +54,7 @@ def check(ctx: Ctx) -> None:
 
     with ctx.obligation("C02.a", "single-reader") as ob:
         readers = []
-        for fi in repo.funcs.values():
+        for fi in repo.scan_funcs():
             for c in repo.calls_in(fi):
                 if unparse(c.func) == "Message.from_io":
                     readers.append((fi, c))
@@ -71,11 +71,11 @@ def check(ctx: Ctx) -> None:
                 ob.violation(fi, c, "a second reader decodes frames from a connection: frames would be split between readers")
         ob.require(len(readers) >= 2, "Message.from_io readers (receiver thread, forwarder) not found")
         # only the receiver reads the gateway's io
-        for fi in repo.funcs.values():
+        for fi in repo.scan_funcs():
             for c in repo.calls_in(fi):
                 if callee_attr(c) == "read" and isinstance(c.func, ast.Attribute) and unparse(c.func.value) in ("self._io", "gateway._io", "gw._io"):
                     ob.violation(fi, c, "direct read on a live gateway's io outside the receiver thread")
-        inits = repo.callsites(f"{GB}.BaseGateway._initreceive")
+        inits = repo.callsites_flat(f"{GB}.BaseGateway._initreceive")
         names = sorted(f.short for f, _c in inits)
         ob.site(repo.func(f"{GB}.BaseGateway._initreceive"), None, "_initreceive called once per construction path", callers=names)
         if names != ["Gateway.__init__", "WorkerGateway.serve"]:
@@ -84,7 +84,7 @@ def check(ctx: Ctx) -> None:
         sp = [c for c in repo.calls_in(fir) if callee_attr(c) == "spawn"]
         if len(sp) != 1 or unparse(sp[0].args[0]) != "self._thread_receiver":
             ob.violation(fir, fir.node, "_initreceive does not spawn exactly one _thread_receiver")
-        refs = [fi.short for fi in repo.funcs.values() for n in repo.own_nodes(fi) if isinstance(n, ast.Attribute) and n.attr == "_thread_receiver"]
+        refs = [fi.short for fi in repo.scan_funcs() for n in repo.own_nodes(fi) if isinstance(n, ast.Attribute) and n.attr == "_thread_receiver"]
         if refs != ["BaseGateway._initreceive"]:
             ob.violation(fir, fir.node, f"_thread_receiver is referenced from {refs}", construct=f"refs {refs}")
         # bootstrap handshake reads precede Gateway(io, spec)
@@ -205,7 +205,7 @@ def check(ctx: Ctx) -> None:
         if not (isinstance(mk[0].value, ast.Call) and unparse(mk[0].value.func).endswith(".queue.Queue") and not mk[0].value.args):
             ob.violation(fci, mk[0], "Channel._items is not an unbounded FIFO queue.Queue(): order or delivery of items would change")
         aliases = {"_items"}
-        for fi in repo.funcs.values():
+        for fi in repo.scan_funcs():
             if fi.module.name != GB:
                 continue
             local = set()
